@@ -7,16 +7,18 @@
   * The filesystem is a `Node` tree.  A directory path is the list of its components from the
     root (`WPath`); the Python strings are obtained by `render` (`"/" + "/".join(cs)`), and the
     two places where the code builds a path *string* for glob matching are transcribed on
-    strings: `combine(path, name)` for directories, `dir_path + "/" + name` for files (which is
-    `"//name"` when `dir_path == "/"`).
+    strings: `combine(path, name)` for directories and (since the fix a47d87a) for files too.
+    The raw start-path string is normalised by `_iter_walk` (`abspath(normpath(path))`, fix
+    429ed79): `startOf` / `iterWalkStr`.
   * A work-list element carries, next to the directory path, the listing `_scan(fs, path)`
     returns for it (the entries of that directory in listing order).  `FsProofs.C13.paths_correct`
     shows that for a well-formed tree this is `get path t`, i.e. exactly what a fresh `scandir`
     reads.  Carrying the listing makes both machines total by an explicit measure (total size of
     the sub-trees still in the work-list) without any well-formedness assumption.
   * Name matchers are parameters: an option that is `None` in Python is `none`; otherwise it is
-    the predicate `fs.match(patterns, ·)` / `fs.match_glob(patterns, ·)`.  For `filter_glob` the
-    walker only ever calls `match_glob(…, accept_prefix=True)`, so that is the predicate stored.
+    the predicate `fs.match(patterns, ·)` / `fs.match_glob(patterns, ·)`.  `filter_glob` is used in
+    two ways — exactly for files, with `accept_prefix=True` for directories — so it carries both
+    predicates (`GlobFilter`).
   * `ignore_errors` / `on_error` are outside the model (a static tree has no scan errors except at
     the start path, which `iterWalk` reports).
 -/
@@ -39,6 +41,13 @@ inductive Search where
   | breadth | depth
   deriving DecidableEq, Repr
 
+/-- `filter_glob`, as the walker consults it -/
+structure GlobFilter where
+  /-- `fs.match_glob(filter_glob, ·)` — used for files -/
+  exact : Str → Bool
+  /-- `fs.match_glob(filter_glob, ·, accept_prefix=True)` — used for directories -/
+  pref : Str → Bool
+
 /-- the option record of `Walker.__init__` (`ignore_errors`/`on_error` aside; `search` is passed
 separately). -/
 structure Opts where
@@ -46,8 +55,7 @@ structure Opts where
   exclude     : Option (Name → Bool) := none
   filterDirs  : Option (Name → Bool) := none
   excludeDirs : Option (Name → Bool) := none
-  /-- `fs.match_glob(filter_glob, ·, accept_prefix=True)` -/
-  filterGlob  : Option (Str → Bool) := none
+  filterGlob  : Option GlobFilter := none
   /-- `fs.match_glob(exclude_glob, ·)` -/
   excludeGlob : Option (Str → Bool) := none
   maxDepth    : Option Int := none
@@ -63,15 +71,23 @@ def optAll {α : Type} (f : Option (α → Bool)) (x : α) : Bool :=
 /-- the string `_check_open_dir` matches globs against: `combine(path, info.name)` -/
 def dirGlobPath (dir : WPath) (k : Name) : Str := combine (render dir) k
 
-/-- the string `_check_file` matches globs against: `dir_path + "/" + info.name` -/
-def fileGlobPath (dir : WPath) (k : Name) : Str := render dir ++ '/' :: k
+/-- the string `_check_file` matches globs against: `full_path = combine(dir_path, info.name)` -/
+def fileGlobPath (dir : WPath) (k : Name) : Str := combine (render dir) k
+
+/-- `self.filter_glob is None or fs.match_glob(self.filter_glob, s, accept_prefix=True)` -/
+def globDirOk (o : Opts) (s : Str) : Bool :=
+  match o.filterGlob with | none => true | some g => g.pref s
+
+/-- `self.filter_glob is None or fs.match_glob(self.filter_glob, s)` -/
+def globFileOk (o : Opts) (s : Str) : Bool :=
+  match o.filterGlob with | none => true | some g => g.exact s
 
 /-- `Walker._check_open_dir` (the overridable `check_open_dir` returns True) -/
 def checkOpenDir (o : Opts) (dir : WPath) (k : Name) : Bool :=
   if optAny o.excludeDirs k then false
   else if optAny o.excludeGlob (dirGlobPath dir k) then false
   else if !optAll o.filterDirs k then false
-  else if !optAll o.filterGlob (dirGlobPath dir k) then false
+  else if !globDirOk o (dirGlobPath dir k) then false
   else true
 
 /-- `Walker._check_scan_dir`: `if self.max_depth is not None and depth >= self.max_depth: return False` -/
@@ -85,7 +101,7 @@ def checkFile (o : Opts) (dir : WPath) (k : Name) : Bool :=
   if optAny o.exclude k then false
   else if optAny o.excludeGlob (fileGlobPath dir k) then false
   else if !optAll o.filter k then false
-  else if !optAll o.filterGlob (fileGlobPath dir k) then false
+  else if !globFileOk o (fileGlobPath dir k) then false
   else true
 
 /-- `_depth = _calculate_depth(dir_path) - depth + 1` for an entry of directory `dir`, where
@@ -219,6 +235,15 @@ def iterWalk (o : Opts) (s : Search) (t : Node) (start : WPath) : Res (List Even
 def iterWalkPaths (o : Opts) (t : Node) (start : WPath) : List Event :=
   walkBreadthPaths o start.length t t.count [start]
 
+/-- `abspath(normpath(path))` of `_iter_walk` (and of `walk`), as the component list of the result;
+the error is `IllegalBackReference` of `normpath` -/
+def startOf (path : Str) : Res WPath :=
+  (normpath path).map fun p => PathSpec.comps (abspath p)
+
+/-- `Walker._iter_walk(fs, path)` for a raw path string -/
+def iterWalkStr (o : Opts) (s : Search) (t : Node) (path : Str) : Res (List Event) :=
+  (startOf path).bind (iterWalk o s t)
+
 /-- the resources of an event sequence: `(combine(dir, info.name), info)` for the non-markers -/
 def resources (evs : List Event) : List (WPath × Node) :=
   evs.filterMap fun e => match e.2 with
@@ -274,6 +299,17 @@ def regroup : List Event → Pending → List Step × Pending
 def walk (o : Opts) (s : Search) (t : Node) (start : WPath) : Res (List Step) :=
   (iterWalk o s t start).map fun evs => (regroup evs []).1
 
+/-! the four entry points on a raw start-path string (all go through `_iter_walk`'s normalisation) -/
+
+def infoStr (o : Opts) (s : Search) (t : Node) (path : Str) : Res (List (WPath × Node)) :=
+  (startOf path).bind (info o s t)
+def filesStr (o : Opts) (s : Search) (t : Node) (path : Str) : Res (List WPath) :=
+  (startOf path).bind (files o s t)
+def dirsStr (o : Opts) (s : Search) (t : Node) (path : Str) : Res (List WPath) :=
+  (startOf path).bind (dirs o s t)
+def walkStr (o : Opts) (s : Search) (t : Node) (path : Str) : Res (List Step) :=
+  (startOf path).bind (walk o s t)
+
 end Fs.Walk
 
 /-! ## WalkSpec — the documented subset, by recursion over the tree -/
@@ -285,13 +321,13 @@ open Fs Fs.Walk
 passes `filter_glob` / is not matched by `exclude_glob` -/
 def fileSel (o : Opts) (dir : WPath) (k : Name) : Bool :=
   optAll o.filter k && !optAny o.exclude k &&
-  optAll o.filterGlob (fileGlobPath dir k) && !optAny o.excludeGlob (fileGlobPath dir k)
+  globFileOk o (fileGlobPath dir k) && !optAny o.excludeGlob (fileGlobPath dir k)
 
 /-- a directory is opened (returned, and its contents considered) iff its name passes
 `filter_dirs`, is not matched by `exclude_dirs`, and its path passes the globs -/
 def dirSel (o : Opts) (dir : WPath) (k : Name) : Bool :=
   optAll o.filterDirs k && !optAny o.excludeDirs k &&
-  optAll o.filterGlob (dirGlobPath dir k) && !optAny o.excludeGlob (dirGlobPath dir k)
+  globDirOk o (dirGlobPath dir k) && !optAny o.excludeGlob (dirGlobPath dir k)
 
 /-- the contents of a directory at relative depth `r` below the start (`r ≥ 1`) are walked iff
 `r < max_depth` -/
@@ -365,12 +401,14 @@ def infoEvents (evs : List Event) : List (WPath × Info) := evs.filterMap (fun e
 /-- the directories of the end markers, in order -/
 def markers (evs : List Event) : List WPath := evs.filterMap (fun e => if e.2.isNone then some e.1 else none)
 
-/-- Prefix acceptance `pref` (`match_glob(…, accept_prefix=True)`) is *complete* for the exact
-matcher `exact` (`match_glob(…)`): whatever matches exactly is accepted, and whenever the glob
-string of a file matches exactly, every directory on the way to it is accepted as a prefix. -/
-def PrefixComplete (pref exact : Str → Bool) : Prop :=
-  (∀ s, exact s = true → pref s = true) ∧
-  (∀ (dir : WPath) (k : Name) (rest : WPath) (name : Name),
-    exact (fileGlobPath (dir ++ k :: rest) name) = true → pref (dirGlobPath dir k) = true)
+/-- **What the prefix matcher must provide.**  Prefix acceptance (`match_glob(…,
+accept_prefix=True)`) is *complete* for the exact matcher (`match_glob(…)`): whenever the path
+string of a file matches exactly, the path string of every directory on the way to it is accepted
+as a prefix.  This is the property `glob.get_matcher(accept_prefix=True)` is meant to have (fix
+a715270); the matcher being a parameter of the model, it is a hypothesis of `prune_sound_glob` and
+is validated on the real `fs.glob.get_matcher` by the harness for every pattern list / path explored. -/
+def PrefixComplete (g : GlobFilter) : Prop :=
+  ∀ (dir : WPath) (k : Name) (rest : WPath) (name : Name),
+    g.exact (fileGlobPath (dir ++ k :: rest) name) = true → g.pref (dirGlobPath dir k) = true
 
 end Fs.WalkSpec
